@@ -81,8 +81,18 @@ CoordsJudge(e) ==
             ~Hd!NearestOK(e.cases[k].fl, e.cases[k].cmp, e.cases[k].stored) THEN "not_nearest_e7"
   ELSE "ok"
 
+\* beyond the listed properties (tags "X:..." are reported as INFO, never gated)
+TablesJudge(e) ==
+  IF \E k \in 1..Len(e.rows) :
+        LET r == e.rows[k] IN
+          \/ r.ct # Hd!ContentType(r.tt) \/ r.ct_enum # Hd!ContentType(r.tt)
+          \/ r.ce # Hd!ContentEncoding(r.tc) \/ r.ce_enum # Hd!ContentEncoding(r.tc)
+  THEN "X:http_content_tables_differ_from_specification"
+  ELSE IF e.mime # "application/vnd.pmtiles" THEN "X:mime_type_differs" ELSE "ok"
+
 Judge(e) ==
-  CASE e.ev = "Dir"        -> DirJudge(e)
+  CASE e.ev = "Tables"     -> TablesJudge(e)
+    [] e.ev = "Dir"        -> DirJudge(e)
     [] e.ev = "DirRaw"     -> DirRawJudge(e)
     [] e.ev = "DirZeroRaw" -> DirZeroRawJudge(e)
     [] e.ev = "Hdr"        -> HdrJudge(e)
